@@ -90,6 +90,14 @@ class ModuleInfo:
         self.lines = src.splitlines()
         self.tree = ast.parse(src, filename=path)
         self.name = os.path.splitext(os.path.basename(path))[0]
+        # names bound at module level (assignments only: candidates for module-level state)
+        self.toplevel_names = set()
+        for st in self.tree.body:
+            if isinstance(st, (ast.Assign, ast.AnnAssign, ast.AugAssign)):
+                for t in (st.targets if isinstance(st, ast.Assign) else [st.target]):
+                    for n in ast.walk(t):
+                        if isinstance(n, ast.Name):
+                            self.toplevel_names.add(n.id)
 
 
 class Repo:
